@@ -2,7 +2,8 @@ SPECIFICATION SpecA
 CONSTANTS
   MaxN = 8
   MaxK = 0
-  EqRootShortcut = TRUE
+  EqRootShortcut = FALSE
+  EqSizeIgnoresProof = TRUE
   ZeroOldShortcut = TRUE
   Tear = TRUE
   MutLevel = 2
